@@ -84,3 +84,69 @@ def permute_dict(d, ints, k):
     keys = list(d)
     order = perm_from(ints, len(keys), k + 200)
     return {keys[i]: d[keys[i]] for i in order}
+
+
+# ---- deterministic two-thread scheduler ---------------------------------------------------------------
+import sys as _sys
+import threading as _threading
+
+
+class TwoThreadScheduler:
+    """Two Python threads pass a baton at line events inside the library's files; the interleaving is
+    the list of global line-event counts at which the running thread yields.  An interleaving is a
+    plain value: it replays and shrinks like any other part of a case.  (Free-running preemption is
+    not used: it is not replayable.)"""
+
+    def __init__(self, switch_points, prefix):
+        self.sw = set(switch_points)
+        self.prefix = prefix
+        self.cv = _threading.Condition()
+        self.turn = 0
+        self.steps = 0
+        self.done = [False, False]
+
+    def _tracer(self, me):
+        def local(frame, event, arg):
+            if event == "line":
+                self._maybe_switch(me)
+            return local
+
+        def glob(frame, event, arg):
+            if frame.f_code.co_filename.startswith(self.prefix):
+                return local
+            return None
+        return glob
+
+    def _maybe_switch(self, me):
+        with self.cv:
+            self.steps += 1
+            if self.steps in self.sw and not self.done[1 - me]:
+                self.turn = 1 - me
+                self.cv.notify_all()
+                while self.turn != me and not self.done[1 - me]:
+                    self.cv.wait(timeout=30)
+
+    def run(self, f0, f1):
+        res = [None, None]
+
+        def body(me, f):
+            with self.cv:
+                while self.turn != me and not self.done[1 - me]:
+                    self.cv.wait(timeout=30)
+            _sys.settrace(self._tracer(me))
+            try:
+                res[me] = ("ok", f())
+            except Exception as e:  # noqa: library outcome
+                res[me] = ("exc", f"{type(e).__name__}: {str(e)[:200]}")
+            finally:
+                _sys.settrace(None)
+                with self.cv:
+                    self.done[me] = True
+                    self.turn = 1 - me
+                    self.cv.notify_all()
+        ts = [_threading.Thread(target=body, args=(i, f)) for i, f in enumerate((f0, f1))]
+        for t in ts:
+            t.start()
+        for t in ts:
+            t.join()
+        return res, self.steps
